@@ -36,7 +36,7 @@ func typeName(t uint16) string {
 func checkMsg(c msgCase) error {
 	m := c.M
 	pu, err := wm.Encode(m)
-	if err != nil || len(pu) > 65535 {
+	if err != nil || len(pu) > 400000 {
 		return nil // unrepresentable messages are C01's business
 	}
 	restore := wm.Spelling(c.Spell)
@@ -195,6 +195,32 @@ func genMsg(t *rapid.T) msgCase {
 			filler := wm.Rec{Name: owner, Type: wm.TNULL, Class: 1, Fields: []wm.Field{{K: wm.Rest, B: bytes.Repeat([]byte{0xAA}, n)}}}
 			m.An = append([]wm.Rec{filler}, m.An...)
 		}
+	}
+	// ... and the 16-bit marks: names first written around offsets 65536 and 131072 and used again
+	// later (Pack has no size limit; offsets are ints, pointers 14 bits)
+	if rapid.IntRange(0, 12*fillEvery).Draw(t, "filler64k") == 0 {
+		pre := 12
+		for _, q := range m.Q {
+			pre += q.Name.WireLen() + 4
+		}
+		owner := wm.Name{[]byte("fill")}
+		hdr := owner.WireLen() + 10
+		base := rapid.SampledFrom([]int{65536, 65536, 131072, 81920}).Draw(t, "mark")
+		delta := rapid.IntRange(-40, 60).Draw(t, "delta64k")
+		left := base - pre - hdr - delta
+		var fillers []wm.Rec
+		for left > 0 {
+			n := min(left, 60000)
+			fillers = append(fillers, wm.Rec{Name: owner, Type: wm.TNULL, Class: 1, Fields: []wm.Field{{K: wm.Rest, B: bytes.Repeat([]byte{0xAB}, n)}}})
+			left -= n + hdr
+		}
+		// the records behind the mark introduce new names and use them again
+		var reuse []wm.Rec
+		for _, r := range m.An {
+			reuse = append(reuse, wm.Rec{Name: r.Name.Clone(), Type: wm.TNS, Class: 1, TTL: 1, Fields: []wm.Field{{K: wm.NameC, N: r.Name.Clone()}}})
+		}
+		m.An = append(fillers, m.An...)
+		m.Ns = append(m.Ns, reuse...)
 	}
 	c := msgCase{M: m}
 	if rapid.IntRange(0, 2).Draw(t, "respell") == 0 {
